@@ -16,6 +16,10 @@ def make_id(how, ident):
         return ident
     if how == "copy":                      # e.g. the id was logged / sent over a network and came back as text
         return "".join(list(str(ident)))
+    if how == "unknown":                   # an id nobody was given: must cancel nothing
+        return "00000000-dead-beef-0000-000000000000"
+    if how == "none":
+        return None
     raise AssertionError(how)
 
 
@@ -56,7 +60,7 @@ class C11(timed.TimedHarness):
         if o["thread_exceptions"]:
             out.append(("C11/exception", "%r" % (o["thread_exceptions"],)))
         if c["by"] == "id":
-            cancelled = [c["target"]]
+            cancelled = [] if c["how"] in ("unknown", "none") else [c["target"]]
         else:
             cancelled = [i for i, src in enumerate(p["sources"]) if src["sig"] == c["name"]]
         tag = "by=%s/how=%s" % (c["by"], c["how"])
@@ -97,6 +101,10 @@ def params(tier):
         for name in ("A", "B"):
             ps.append({"sources": SRC3, "cancel": {"by": "name", "how": how, "name": name},
                        "bound": 1 if (how == "number" or not q) else 0, "time_horizon": 0.5 if q else 1.0})
+    # cancelling something that is not there cancels nothing
+    for how in ("unknown", "none"):
+        ps.append({"sources": SRC3, "cancel": {"by": "id", "how": how, "target": 0}, "bound": 0 if q else 1, "time_horizon": 0.5 if q else 1.0})
+    ps.append({"sources": SRC3, "cancel": {"by": "name", "how": "literal", "name": "C"}, "bound": 0 if q else 1, "time_horizon": 0.5 if q else 1.0})
     # the race between the cancelling call and a timer that is about to post
     two = [{"sig": "A", "period": 0.5, "times": 0, "deferred": True, "kind": "fifo"},
            {"sig": "B", "period": 0.5, "times": 2, "deferred": False, "kind": "fifo"}]
